@@ -13,12 +13,15 @@
 (***************************************************************************)
 EXTENDS Integers, Sequences, FiniteSets, TLC
 
-Protos == {"http", "twirp", "grpc", "grpcweb", "grpcwebtext"}
+Protos == {"http", "twirp", "grpc", "grpcweb", "grpcwebtext", "ws"}
 Shapes == {"unary", "cstream", "sstream", "bidi"}
 IsGrpc(p) == p \in {"grpc", "grpcweb", "grpcwebtext"}
 ClientStreams(sh) == sh \in {"cstream", "bidi"}
 ServerStreams(sh) == sh \in {"sstream", "bidi"}
 CarriesTrailers(p) == IsGrpc(p)
+\* transports on which replies already sent stay valid when the call then fails, because the status has its own channel
+\* (gRPC trailers, the WebSocket close frame)
+HasStatusChannel(p) == IsGrpc(p) \/ p = "ws"
 
 Range(s) == {s[i] : i \in DOMAIN s}
 Min(a, b) == IF a < b THEN a ELSE b
@@ -44,6 +47,9 @@ HTTPStatus(c) ==
     [] c = 6 -> 409 [] c = 7 -> 403 [] c = 8 -> 429 [] c = 9 -> 400 [] c = 10 -> 409 [] c = 11 -> 400
     [] c = 12 -> 501 [] c = 13 -> 500 [] c = 14 -> 503 [] c = 15 -> 500 [] c = 16 -> 401
     [] OTHER -> 500
+\* WebSocket close codes (code.go): 1000 normal, 1001 going away, 1003 unsupported data, 1008 policy violation, 1011 internal error
+WSStatus(c) ==
+  CASE c = 0 -> 1000 [] c \in {1, 4, 6} -> 1001 [] c \in {3, 12} -> 1003 [] c = 16 -> 1008 [] OTHER -> 1011
 \* Twirp specification spelling
 TwirpName(c) ==
   CASE c = 1 -> "canceled" [] c = 2 -> "unknown" [] c = 3 -> "invalid_argument" [] c = 4 -> "deadline_exceeded"
